@@ -50,7 +50,10 @@ async def settle(n=4):
         await asyncio.sleep(0)
 
 
-def run_sim(build, drive, *, start=1000.0, drain=0.0, setup=None, storage=None, debug=False,
+_RUNS = [0]
+
+
+def run_sim(build, drive, *, start=1000.0, drain=0.0, setup=None, storage=None, debug=None,
             drain_budget=50000):
     """
     Fresh loop + fresh circuit: build() creates the blocks, then the simulation is started,
@@ -66,7 +69,9 @@ def run_sim(build, drive, *, start=1000.0, drain=0.0, setup=None, storage=None, 
         sim = Sim()
         if storage is not None:
             sim.circuit.set_persistent_data(storage)
-        if debug:
+        _RUNS[0] += 1
+        if debug or (debug is None and _RUNS[0] % 4 == 0):
+            # (by default every 4th simulation of a worker)
             # debug messages on (the log records themselves are discarded): the code paths that
             # build the messages run
             sim.circuit.set_debug(True, '*')
